@@ -94,6 +94,87 @@ fn c07_pages_flush_step() {
     core::mem::forget((r, pages, db, buf));
 }
 
+/// Concrete-shape versions of the step above (the symbolic-length one exhausts memory): the number of
+/// pages, whether/where the index is truncated and whether a page is pushed are fixed per harness;
+/// page contents, the file bytes and the index presented to checked_push are symbolic.
+fn pf_body(n: usize, trunc: Option<usize>, push: bool) {
+    let mut buf: Box<[u8; CAPB]> = Box::new(kani::any());
+    let mut vec: Vec<Page> = Vec::with_capacity(64);
+    let mut i = 0;
+    while i < 2 {
+        if i < n {
+            let (s, b, v) = page_at(&buf, i);
+            unsafe {
+                vec.as_mut_ptr().add(i).write(Page { start: s, bytes: b, values: v });
+                vec.set_len(i + 1);
+            }
+        }
+        i += 1;
+    }
+    let (db, region) = rawdb::verif_root::api_contract_db(buf.as_mut_ptr(), CAPB, 16 * n);
+    let mut pages = Pages { region, vec, change_at: None };
+    if let Some(t) = trunc {
+        let old = pages.truncate(t);
+        assert!(old.is_some() == (t < n));
+    }
+    let len1 = pages.len();
+    assert!(len1 == match trunc { Some(t) if t < n => t, _ => n });
+    let p = any_page();
+    if push {
+        let wrong = kani::any::<bool>();
+        if wrong {
+            let idx: usize = kani::any();
+            kani::assume(idx != len1);
+            let r = pages.checked_push(idx, p);
+            assert!(r.is_err() && pages.len() == len1, "push at a wrong index must be refused with no effect");
+            core::mem::forget(r);
+        }
+        let r = pages.checked_push(len1, p);
+        assert!(r.is_ok() && pages.len() == len1 + 1);
+        core::mem::forget(r);
+    }
+    let len2 = pages.len();
+    let r = pages.flush();
+    assert!(r.is_ok());
+    // the pages region is exactly the in-memory index
+    assert!(pages.region.meta().len() == 16 * len2, "pages region length differs from 16 * number of pages");
+    let k: usize = kani::any();
+    kani::assume(k < NP);
+    if k < len2 {
+        let (s, b, v) = page_at(&buf, k);
+        let q = pages.get(k).unwrap();
+        assert!(q.start == s && q.bytes == b && q.values == v, "page index on disk differs from the in-memory index");
+    }
+    assert!(pages.change_at.is_none());
+    kani::cover!(true, "flushed");
+    core::mem::forget((r, pages, db, buf));
+}
+macro_rules! pf {
+    ($name:ident, $n:expr, $trunc:expr, $push:expr) => {
+        #[kani::proof]
+        #[kani::unwind(6)]
+        #[kani::stub(alloc::fmt::format, stubs::format_stub)]
+        #[kani::stub(rawdb::Database::sync_bg_tasks, rawdb::verif_root::sync_bg_tasks_stub)]
+        #[kani::stub(std::vec::Vec::<T>::with_capacity, stubs::with_capacity_stub64)]
+        #[kani::stub(std::vec::Vec::<T>::reserve, stubs::reserve_stub64)]
+        #[kani::stub(<[u8]>::to_vec, stubs::to_vec_stub)]
+        fn $name() {
+            pf_body($n, $trunc, $push);
+        }
+    };
+}
+pf!(c07_pf_n0_push, 0, None, true);
+pf!(c07_pf_n0_t0, 0, Some(0), false);
+pf!(c07_pf_n1_push, 1, None, true);
+pf!(c07_pf_n1_t0, 1, Some(0), false);
+pf!(c07_pf_n1_t0_push, 1, Some(0), true);
+pf!(c07_pf_n1_t1_push, 1, Some(1), true);
+pf!(c07_pf_n2_push, 2, None, true);
+pf!(c07_pf_n2_t0, 2, Some(0), false);
+pf!(c07_pf_n2_t1, 2, Some(1), false);
+pf!(c07_pf_n2_t1_push, 2, Some(1), true);
+pf!(c07_pf_n2_none, 2, None, false);
+
 /// Index arithmetic at the real page capacity: next_start / stored_len / Page::end
 #[kani::proof]
 #[kani::unwind(4)]
